@@ -11,9 +11,11 @@ IsEv(e) == l < EndOf(t0) /\ Trace[l].ev = e /\ l' = l + 1
 
 TInit == /\ t0 \in Starts /\ l = t0
          /\ steps = <<>> /\ inStep = FALSE /\ broken = FALSE /\ cancelled = FALSE /\ silent = FALSE /\ ctxd = FALSE
+         /\ stuck = FALSE /\ aborts = FALSE /\ inAbort = FALSE
          /\ ready = FALSE /\ result = "idle"
 TrReset == /\ l = t0 /\ IsEv("reset") /\ result' = "none" /\ silent' = Trace[l].silent /\ ctxd' = Trace[l].ctxd
-           /\ UNCHANGED <<steps, inStep, broken, cancelled, ready>>
+           /\ stuck' = Trace[l].stuck /\ aborts' = Trace[l].aborts
+           /\ UNCHANGED <<steps, inStep, broken, cancelled, inAbort, ready>>
 TrNegotiate == IsEv("negotiate") /\ StepBegin
 TrNegRet == IsEv("negret") /\ StepEnd(Trace[l].ok)
 TrFault == IsEv("fault") /\ (Fault \/ (broken /\ UNCHANGED vars))
@@ -22,13 +24,15 @@ TrReturn ==
   /\ IsEv("return")
   /\ IF Trace[l].ok THEN ReturnOK /\ Trace[l].ready
      ELSE ReturnErr /\ ~Trace[l].ready
+(* the call's decision to give up on a stream-level abort leaves no event of its own *)
+Silent == AbortBegin /\ UNCHANGED l
 TrEnd == IsEv("end") /\ result \in {"ok", "err"} /\ UNCHANGED vars
 
 Inv == C04_FaultImpliesError /\ C04_NoSwallow /\ C04_ErrNotReady /\ C04_OkMeansReady /\ C04_NoStall
 
 TNext ==
   /\ l < EndOf(t0)
-  /\ \/ TrReset \/ TrNegotiate \/ TrNegRet \/ TrFault \/ TrCancel \/ TrReturn \/ TrEnd
+  /\ \/ TrReset \/ TrNegotiate \/ TrNegRet \/ TrFault \/ TrCancel \/ TrReturn \/ TrEnd \/ Silent
   /\ UNCHANGED t0
   /\ Inv'
 
